@@ -193,4 +193,12 @@ theorem lv_pack_unpack (xs : List Str) (h : LastOk xs) : unpack (pack xs) = some
   unfold unpack
   simp only [strip_pack xs h]
   exact unpackCore_pack xs _ (by omega)
+/-- the length-prefixed framing is uniquely decodable: **`lv_pack` is injective** (no guard needed) -/
+theorem pack_injective (xs ys : List Str) (h : pack xs = pack ys) : xs = ys := by
+  have h1 := unpackCore_pack xs ((pack xs).length + 1) (Nat.lt_succ_self _)
+  have h2 := unpackCore_pack ys ((pack xs).length + 1) (by rw [h]; exact Nat.lt_succ_self _)
+  rw [← h] at h2
+  rw [h1] at h2
+  exact Option.some.inj h2
+
 end Idpy.LV
